@@ -136,6 +136,14 @@ def run(ctx):
         mk = [e for e in events if e.kind == 'call' and e.callee == 'io_loop::ChannelSlot::new']
         r.check('factory:slot-for-that-id', mk and all(S.show(e.args[0]) == 'self.mio_channel_bound' and S.show(e.args[1]) == '$c0' for e in mk), site, built=[S.show(e.term) for e in mk])
 
+    with ctx.rule('R10.8', 'channel_max is the negotiated value, installed once before any allocation (shared with C15)', floor=3) as r:
+        A.include(ctx, r, 'c15', 'R15.3', pick=('channel-limit', 'one-TuneOk-literal'))
+        A.include(ctx, r, 'c15', 'R15.4')
+    with ctx.rule('R10.9', 'a channel opened after a back-pressure episode is polled: registration flags in lock-step (shared with C18)', floor=6) as r:
+        A.include(ctx, r, 'c18', 'R18.2', pick=('flag', 'edges'))
+        A.include(ctx, r, 'c18', 'R18.4')
+        A.include(ctx, r, 'c18', 'R18.3')
+
     with ctx.rule('R10.7', "a channel's wake-ups are its own: the I/O loop's special tokens lie outside Token(0..=u16::MAX) and are pairwise distinct", floor=2) as r:
         ok, why, vals = panics.token_values(ctx)
         r.check('special-tokens-disjoint-from-channel-ids', ok, ctx.site('io_loop::IoLoop::handle_steady_event'), built=why, expected='STREAM, HEARTBEAT, ALLOC_CHANNEL, SET_BLOCKED_TX > 65535',
